@@ -371,6 +371,35 @@ def run_leak(p, stats):
     stats["sim_ns"] += p["duration"]
     if p_x > 0.05:
         stats["probe/leaked_population_sampled"] += 1
+    # expectation values under detection errors use the same bit convention with
+    # and without the error state: calibrated on a leakage-free run of this tree
+    eps, epsp = 0.1, 0.2
+    got = {}
+    for leak in (False, True):
+        kw = dict(noise=("SPAM",) + (("leakage", "eff_noise") if leak else ()), eta=0.0, epsilon=eps, epsilon_prime=epsp)
+        if leak:
+            kw.update(eff_noise_opers=[qutip.Qobj(op)], eff_noise_rates=[p["rate"]])
+        try:
+            r2 = QutipEmulator.from_sequence(seq, config=SimConfig(**kw)).run()
+            rr = r2.get_final_state().full()
+            rr = rr @ rr.conj().T if rr.shape[1] == 1 else rr
+            idx = one_idx if leak else {"ground-rydberg": 0, "digital": 1, "XY": 1}[p["basis"]]
+            p1 = float(rr[idx, idx].real)
+            pm = p1 * (1 - epsp) + (1 - p1) * eps
+            e = [float(np.real(r2.expect([qutip.basis(2, k) * qutip.basis(2, k).dag()])[0][-1])) for k in (0, 1)]
+            got[leak] = (pm, e)
+        except Exception as ex:  # noqa: BLE001
+            stats[f"leak_expect_skipped/{type(ex).__name__}"] += 1
+            got = {}
+            break
+    if got:
+        pm0, e0 = got[False]
+        ks = [k for k in (0, 1) if abs(e0[k] - pm0) < 1e-6]
+        if len(ks) == 1:
+            pm1, e1 = got[True]
+            stats["probe/expect_under_detection_errors_with_leakage"] += 1
+            if abs(e1[ks[0]] - pm1) > 1e-5:
+                return [("C11/bitstring-convention", f"{p['basis']}: with detection errors (epsilon={eps}, epsilon'={epsp}) the expectation of reading 1 is {e1[ks[0]]:.5f} once the error state x is in the basis, expected {pm1:.5f} (same projector gives {e0[ks[0]]:.5f} = {pm0:.5f} without leakage)")]
     if pval < 1e-9:
         return [("C11/bitstring-convention", f"{p['basis']} with leakage: population of the 'one' state {p_one:.4f}, of x {p_x:.4f}; measured 1 in {k1} of {p['shots']} shots (binomial tail {pval:.2e}): x must read as 0")]
     return []
